@@ -136,6 +136,7 @@ package roundrobin
 //@   loop 1 invariant -1 <= rangeindex && rangeindex < len(rb.servers) && rbPoolOK(rb) && rbDistinct(rb)
 //@   loop 1 invariant len(rb.servers) == old(len(rb.servers)) && (forall i int :: 0 <= i && i < len(rb.servers) ==> rb.servers[i] == old(rb.servers[i]) && rb.servers[i].origWeight == old(rb.servers[i].origWeight))
 //@   loop 1 invariant forall i int :: 0 <= i && i <= rangeindex ==> rb.servers[i].curWeight == rb.servers[i].origWeight
+//@   loop 1 iteration every_record_is_pushed_with_its_configured_weight: calls(rb.next.UpsertServer) == 1 && callarg(rb.next.UpsertServer, 0, 0) == s.url && calls(Weight) == 1 && callarg(Weight, 0, 0) == s.origWeight && len(callarg(rb.next.UpsertServer, 0, 1)) == 1 && callarg(rb.next.UpsertServer, 0, 1)[0] == callres(Weight, 0, 0)
 
 //@ func (*Rebalancer).UpsertServer
 //@   props C02 C10
@@ -258,6 +259,7 @@ package roundrobin
 //@   loop 1 invariant -1 <= rangeindex && rangeindex < len(rb.servers) && rbPoolOK(rb)
 //@   loop 1 invariant len(rb.servers) == old(len(rb.servers)) && (forall i int :: 0 <= i && i < len(rb.servers) ==> rb.servers[i] == old(rb.servers[i]) && rb.servers[i].curWeight == old(rb.servers[i].curWeight) && rb.servers[i].origWeight == old(rb.servers[i].origWeight) && rb.servers[i].good == old(rb.servers[i].good))
 //@   loop 1 invariant rb.timer == old(rb.timer)
+//@   loop 1 iteration every_record_is_pushed_with_its_current_weight: calls(rb.next.UpsertServer) == 1 && callarg(rb.next.UpsertServer, 0, 0) == srv.url && calls(Weight) == 1 && callarg(Weight, 0, 0) == srv.curWeight && len(callarg(rb.next.UpsertServer, 0, 1)) == 1 && callarg(rb.next.UpsertServer, 0, 1)[0] == callres(Weight, 0, 0)
 
 //@ func (*Rebalancer).setMarkedWeights
 //@   props C10
